@@ -231,6 +231,7 @@ MUTANTS: Dict[str, List[M]] = {
         ("explicit instance of Class.m(self, ...) counted as a parameter again (F58)", "_parameter_resolvers.py", "        given_args = {n - 1 for n in given_args if n > 0}\n", "        pass\n", "C13.b"),
         ("instance flag not passed on", "_parameter_resolvers.py", "params = remove_given_parameters(node, params, removed_params, instance_given=instance_given)", "params = remove_given_parameters(node, params, removed_params)", "C13.b"),
         ("instance name read from args.args[0] again (F62)", "_parameter_resolvers.py", "            arg_nodes = getattr(self.component_node.args, \"posonlyargs\", []) + self.component_node.args.args\n            self.self_name = arg_nodes[0].arg if self.parent else None\n", "            self.self_name = self.component_node.args.args[0].arg if self.parent else None\n", "C13.g"),
+        ("keyword-only defaults joined on the wrong side", "_parameter_resolvers.py", "        default_nodes = default_nodes + node.kw_defaults", "        default_nodes = node.kw_defaults + default_nodes", "C13.d"),
         ("default nodes ignore keyword-only parameters again (F56)", "_parameter_resolvers.py", "        arg_nodes = arg_nodes + node.kwonlyargs\n        default_nodes = default_nodes + node.kw_defaults\n", "", "C13.d"),
         ("positional-only names paired after the ordinary ones", "_parameter_resolvers.py", 'arg_nodes = getattr(node, "posonlyargs", []) + node.args', 'arg_nodes = node.args + getattr(node, "posonlyargs", [])', "C13.d"),
         ("defaults left-aligned", "_parameter_resolvers.py", "default_nodes = [None] * (len(arg_nodes) - len(node.defaults)) + node.defaults", "default_nodes = node.defaults + [None] * (len(arg_nodes) - len(node.defaults))", "C13.d"),
